@@ -94,6 +94,9 @@ def translate(repo):
                 continue        # test helpers of the same name
             if rel == "src/system.rs" and name in ("max", "min") and "self.value" not in body:
                 continue
+            pname = params.split(":")[0].replace("mut", "") if ":" in params else ""
+            if name == "new" and pname and pname != "v":
+                body = body.replace(f"(&{pname})", "(&v)")       # the parameter's name is not part of the meaning
             if name == "new" and "to_base" in body:
                 m = STRUCT_RE.match(body)
                 rows.append({"file": rel, "line": line, "fn": name, "wrap": "struct" if m else "", "recv": "-", "meth": "-", "args": (m.group(1) if m else body)[:200]})
